@@ -112,11 +112,17 @@ def gen_plan(prop, seed, index, tier="quick"):
             elif x < 0.75:
                 hi = init_end[tp[1]]
                 lo = 0
-                if prop == "C13" and r.random() < 0.3:
+                if r.random() < (0.3 if prop == "C13" else 0.12):
                     off = r.choice([hi + r.randint(1, 50), max(0, lo - 1), 0])
                 else:
                     off = r.randint(lo, hi) if hi > lo else lo
                 ops.append({"op": "seek", "tp": tp, "offset": off})
+                if r.random() < 0.25:
+                    # a second seek while the fetch for the first target (possibly out of
+                    # range, i.e. answered with an error) is still in flight
+                    if r.random() < 0.6:
+                        ops.append({"op": "sleep", "s": r.choice([0.0002, 0.001, 0.005])})
+                    ops.append({"op": "seek", "tp": tp, "offset": r.randint(lo, hi) if hi > lo else lo})
             elif x < 0.8:
                 ops.append({"op": "pause", "tp": tp})
             elif x < 0.86:
